@@ -55,6 +55,7 @@ const (
 	upReplyNoBody = "reply-ok-nobody"              // success response without a body
 	upUnkNoBody   = "reply-unknown-then-ok-nobody" // a response (with body) nobody waits for, then the real, body-less one
 	upDelayOK     = "delay-ok"                     // success response ReplyDelayMs of virtual time after the request was seen (C11)
+	upDelayClose  = "delay-close"                  // the upstream closes the connection ReplyDelayMs of virtual time after the request was seen
 )
 
 type hpRequest struct {
@@ -732,6 +733,10 @@ func (h *hpRun) onUpstreamConn(c *vfake.Conn) {
 			case upDelayOK:
 				vrt.Sleep(time.Duration(h.sc.ReplyDelayMs) * time.Millisecond)
 				c.InjectRead(hpBoltResponse(fr.ID, bolt.ResponseStatusSuccess, fr.Token, true))
+			case upDelayClose:
+				vrt.Sleep(time.Duration(h.sc.ReplyDelayMs) * time.Millisecond)
+				c.RemoteClose()
+				return
 			case "reply-ok+k1":
 				b := hpEncode(bolt.NewRpcResponse(fr.ID, bolt.ResponseStatusSuccess, hpHeader(map[string]string{"token": fr.Token, "k1": "old"}), buffer.NewIoBufferString("resp-of-"+fr.Token)))
 				c.InjectRead(b)
